@@ -198,7 +198,7 @@ def make_plugin(filt=None, stop=None, color=False, unprocessed=True):
     o = Output(False, unprocessed, out, err)
     cm = ConnectionManager()
     if isinstance(filt, str) or isinstance(stop, str):
-        filt, stop = sut.matchers_from_command_line(filt, stop, color)
+        filt, stop = sut.matchers_from_command_line(filt, stop, color, mode_words=())
     ctl = Controller(o, cm, filt if filt is not None else matcher.always, stop if stop is not None else matcher.never)
     pl = plugin.Plugin(o, cm, ctl, ctl)
     bps = {}
